@@ -223,3 +223,9 @@ def harnesses(tier):
     for t in cat.deep() + ([] if tier == "quick" else cat.slot()):
         out.append(clones(t, timeout=60 if tier == "quick" else 200))
     return out
+
+
+def pre_checks(tier, workdir):
+    import kernels
+
+    return kernels.run_C09(tier, workdir)
